@@ -1016,21 +1016,31 @@ where
             lc
         })
         .collect();
-    sorted_lcs.sort_by(|a, b| {
-        if let Some(b_resume_lc) = &b.resume_lc {
-            if b_resume_lc.id == a.id {
-                // b is a resume of a so a must be earlier
-                return std::cmp::Ordering::Less;
-            }
+    // sort by start_time but a resume lifecycle must be after the lifecycle it resumes from.
+    // Comparing only the direct (resumed, resume) pairs differently is not a total order
+    // (the pair might never be compared directly if other lifecycles are in between). So we
+    // use as sort key the start_time but for a resume lifecycle at least the key of the resumed one + 1.
+    fn sort_key<M, S>(
+        lc: &Lifecycle,
+        lcr: &evmap::MapReadRef<LifecycleId, LifecycleItem, M, S>,
+    ) -> u64
+    where
+        S: std::hash::BuildHasher + Clone,
+        M: 'static + Clone,
+    {
+        match &lc.resume_lc {
+            // a resume lc is always created after (so has a higher id than) the resumed one
+            Some(resume_lc) if resume_lc.id < lc.id => match lcr.get_one(&resume_lc.id) {
+                Some(resumed_lc) => std::cmp::max(
+                    lc.start_time,
+                    sort_key(resumed_lc, lcr).saturating_add(1),
+                ),
+                None => lc.start_time,
+            },
+            _ => lc.start_time,
         }
-        if let Some(a_resume_lc) = &a.resume_lc {
-            if a_resume_lc.id == b.id {
-                // a is a resume of b so b must be earlier
-                return std::cmp::Ordering::Greater;
-            }
-        }
-        a.start_time.cmp(&b.start_time)
-    });
+    }
+    sorted_lcs.sort_by_cached_key(|lc| (sort_key(lc, lcr), lc.id));
     sorted_lcs
 }
 
